@@ -187,6 +187,8 @@ int16_t COTmrDelete(CO_TMR *tmr, int16_t actId)
     CO_TMR_ACTION *act;
     CO_TMR_ACTION *prev;
     CO_TMR_ACTION *del    = 0;
+    CO_TMR_TIME   *te;
+    uint8_t        inElapsed = 0;
     int16_t        result = -1;
 
     if ( (actId < 0) ||
@@ -225,6 +227,7 @@ int16_t COTmrDelete(CO_TMR *tmr, int16_t actId)
 
     /* not found: search in elapsed timer list */
     if (del == 0) {
+        inElapsed = 1;
         tx = tmr->Elapsed;
         while ((tx != 0) && (del == 0)) {
             act = tx->Action;
@@ -263,7 +266,23 @@ int16_t COTmrDelete(CO_TMR *tmr, int16_t actId)
         if (tx != 0) {
             if (tx->Action == (CO_TMR_ACTION*)0) {
                 tx->ActionEnd = 0;
-                COTmrRemove(tmr, tx);
+                if (inElapsed == 0) {
+                    COTmrRemove(tmr, tx);
+                } else {
+                    /* unlink emptied event from elapsed list */
+                    if (tmr->Elapsed == tx) {
+                        tmr->Elapsed = tx->Next;
+                    } else {
+                        te = tmr->Elapsed;
+                        while (te->Next != tx) {
+                            te = te->Next;
+                        }
+                        te->Next = tx->Next;
+                    }
+                    tx->Delta = 0;
+                    tx->Next  = tmr->Free;
+                    tmr->Free = tx;
+                }
             }
             result = 0;
         }
